@@ -33,7 +33,8 @@ RULE = ("case = one composable netlist (EDIF: generated API-built or reader-prod
 ASSUMPTIONS = ["'closed when the call returns' is decided for CPython reference counting: files are tracked by weak reference",
                "documented EDIF side effects are allowed: dependency order of libraries/cells, EDIF.identifier / EDIF.rename "
                "keys, defaulted netlist name"]
-REQUIRED = {"composes": 400, "snapshots_compared": 150, "byte_comparisons": 250, "files_tracked": 400}
+REQUIRED = {"composes": 400, "snapshots_compared": 150, "byte_comparisons": 250, "files_tracked": 400,
+            "renamed_elements_with_ampersand_identifiers": 40, "clock_lists_edited": 3}
 EDIF_KEYS = ("EDIF.identifier", "EDIF.rename")
 
 
